@@ -181,3 +181,58 @@ def model_view_cmp(mv):
 
 def impl_view_cmp(iv):
     return {k: iv[k] for k in ("element_ids", "xforms", "hidden", "order", "top", "bottom", "opposing")}
+
+
+def non_json_path(x, path="$"):
+    """path of the first value that is not JSON-like (dict / list / tuple / str / int / float / bool / None), or None.
+    The caller-owned dicts must stay plain data: e.g. a one-shot iterator written into them is consumed by the
+    first reader and silently empty for every later one."""
+    if x is None or isinstance(x, (str, int, float, bool)):
+        return None
+    if isinstance(x, dict):
+        for k, v in x.items():
+            if not (k is None or isinstance(k, (str, int, float, bool))):
+                return "%s{key %s}" % (path, type(k).__name__)
+            r = non_json_path(v, "%s.%s" % (path, k))
+            if r:
+                return r
+        return None
+    if isinstance(x, (list, tuple)):
+        for i, v in enumerate(x):
+            r = non_json_path(v, "%s[%d]" % (path, i))
+            if r:
+                return r
+        return None
+    return "%s = <%s>" % (path, type(x).__name__)
+
+
+def jdump(x):
+    """json.dumps that never fails (details of findings)"""
+    import json
+    try:
+        return json.dumps(x, default=lambda o: "<%s>" % type(o).__name__)
+    except Exception:  # noqa
+        return repr(x)
+
+
+# keys of a dimension-transforms dict the shim is entitled to rewrite
+SHIM_KEYS = ("elements",)
+SHIM_ORDER_KEYS = ("element_ids", "fixed")
+
+
+def unshimmed_part(tr):
+    """everything in a transforms dict that NO code may change: all top-level entries other than the two dimension
+    entries, and inside those everything but element keys / explicit ids / fixed lists"""
+    import copy
+    out = {}
+    for k, v in tr.items():
+        if k in ("rows_dimension", "columns_dimension") and isinstance(v, dict):
+            d = {kk: vv for kk, vv in v.items() if kk not in SHIM_KEYS and kk != "order"}
+            if isinstance(v.get("order"), dict):
+                d["order"] = {kk: vv for kk, vv in v["order"].items() if kk not in SHIM_ORDER_KEYS}
+            elif "order" in v:
+                d["order"] = v["order"]
+            out[k] = d
+        else:
+            out[k] = v
+    return copy.deepcopy(out) if non_json_path(out) is None else out
